@@ -196,6 +196,9 @@ def run(chk, facts):
         chk.ob("R-C08-4", "attempt=guarded-expression", ok, "the try body is the guarded expression" if ok else "TryExcept.attempt is not the converted guarded expression", loc)
     except AnchorError as e:
         chk.anchor_fail("R-C08-4", e)
+    chk.rule("R-C08-6", "no element is dropped before it is checked: every zip/take/skip in the checker is length-guarded or reviewed (shared census, rules/quant.py)")
+    from .quant import truncation_census
+    truncation_census(chk, facts, "R-C08-6")
     chk.notes.append("C08: must-call on MIR for every callee-resolution site; environment field-flow for the caught set; operand provenance in check_raises_caught.")
 
 
